@@ -124,6 +124,15 @@ open Sig Sig.Search
     (fun b => s!"header={repr b}")
   report "SignalGen.Eq.Chan" "C.Channels/Capacity/Length" n w
 
+-- ------------------------------------------------------------------------------------------- SignalGen.Eq.Alloc
+#eval do
+  let cases := Kind.all.flatMap fun k => [0, 1, 2, 3, 8].flatMap fun ch => [0, 1, 2, 5].flatMap fun len => [0, 1, 2, 5, 6].map fun cap => (k, ch, len, cap)
+  let (n, w) := firstBad cases
+    (fun (k, ch, len, cap) => Gen.getBitDepth k != (getBitDepth k false : Int) ||
+      !resEq (Gen.Alloc k heap0 (ch : Nat) (len : Nat) (cap : Nat)) (match alloc heap0 k false ch len cap with | some (h', b) => .ok h' b | none => .panic heap0 .other))
+    (fun (k, ch, len, cap) => s!"kind={k.toString} ch={ch} len={len} cap={cap}")
+  report "SignalGen.Eq.Alloc" "Alloc/getBitDepth" n w
+
 -- ------------------------------------------------------------------------------------------- SignalGen.Eq.Pool
 #eval do
   let pools : List Pool := [0, 1, 2, 3].flatMap fun ch => [0, 1, 2, 3, 4, 7].flatMap fun cap => (List.range (cap + 2)).map fun len =>
